@@ -21,6 +21,9 @@ CONSTANTS
   GenCheck = TRUE
   ModernUnsub = TRUE
   ForeignUnsub = FALSE
+  Listeners = {}
+  MaxListens = 0
+  FailUndo = TRUE
   Stepwise = TRUE
   Gates = FALSE
   GateNames = {"inv", "usr", "put"}
